@@ -181,6 +181,13 @@ pub fn scenarios(tier: &str) -> Vec<Scenario> {
             Cfg::default(),
         )
     }));
+    v.push(Scenario::new("staggered_unbondings_clock_moved_without_a_new_height", &["unbonding_paid", "unbonding_still_pending", "end"], || {
+        // found missing by seed C14g: the block time moves through update_block without touching the
+        // height, or through set_block at the same height — matured unbondings are paid all the same
+        let mut cfg = Cfg::default();
+        cfg.advance_mode = 1 + choose(2) as u8;
+        run_fixed(&staggered(false), cfg)
+    }));
     v.push(Scenario::new("seq3_small_alphabet", &["delegate_ok", "undelegate_ok", "unbonding_paid", "unbonding_still_pending", "slash_ok", "slash_err", "end"], || {
         run_seq(&alphabet_small(), 3, Cfg::default())
     }));
